@@ -85,12 +85,25 @@ impl ApproximateEqToInt for f64 {
     }
 }
 
+/// Fits the quotient of a division to the smallest type that can hold it,
+/// raising overflow if it is not finite.
+macro_rules! quotient {
+    ($quotient:expr) => {{
+        let quotient = $quotient;
+        if quotient.is_finite() {
+            Ok(quotient.fit_to_type())
+        } else {
+            Err($crate::VariantError::Overflow)
+        }
+    }};
+}
+
 macro_rules! div {
     ($nom:expr, $div:expr) => {
         if $div.approximate_eq(0) {
             Err($crate::VariantError::DivisionByZero)
         } else {
-            Ok(($nom / $div).fit_to_type())
+            quotient!($nom / $div)
         }
     };
 
@@ -98,7 +111,7 @@ macro_rules! div {
         if $div.approximate_eq(0) {
             Err($crate::VariantError::DivisionByZero)
         } else {
-            Ok(($nom as $cast / $div as $cast).fit_to_type())
+            quotient!($nom as $cast / $div as $cast)
         }
     };
 }
@@ -116,6 +129,24 @@ fn checked_integer(n: i32) -> Result<Variant, VariantError> {
 fn checked_long(n: i64) -> Result<Variant, VariantError> {
     if (MIN_LONG..=MAX_LONG).contains(&n) {
         Ok(Variant::VLong(n))
+    } else {
+        Err(VariantError::Overflow)
+    }
+}
+
+/// Creates a single variant, ensuring the value is finite.
+fn checked_single(f: f32) -> Result<Variant, VariantError> {
+    if f.is_finite() {
+        Ok(Variant::VSingle(f))
+    } else {
+        Err(VariantError::Overflow)
+    }
+}
+
+/// Creates a double variant, ensuring the value is finite.
+fn checked_double(d: f64) -> Result<Variant, VariantError> {
+    if d.is_finite() {
+        Ok(Variant::VDouble(d))
     } else {
         Err(VariantError::Overflow)
     }
@@ -218,16 +249,16 @@ impl Variant {
     pub fn plus(self, other: Self) -> Result<Self, VariantError> {
         match self {
             Self::VSingle(f_left) => match other {
-                Self::VSingle(f_right) => Ok(Self::VSingle(f_left + f_right)),
-                Self::VDouble(d_right) => Ok(Self::VDouble(f_left as f64 + d_right)),
-                Self::VInteger(i_right) => Ok(Self::VSingle(f_left + i_right as f32)),
-                Self::VLong(l_right) => Ok(Self::VSingle(f_left + l_right as f32)),
+                Self::VSingle(f_right) => checked_single(f_left + f_right),
+                Self::VDouble(d_right) => checked_double(f_left as f64 + d_right),
+                Self::VInteger(i_right) => checked_single(f_left + i_right as f32),
+                Self::VLong(l_right) => checked_single(f_left + l_right as f32),
                 _ => other.plus(self),
             },
             Self::VDouble(d_left) => match other {
-                Self::VDouble(d_right) => Ok(Self::VDouble(d_left + d_right)),
-                Self::VInteger(i_right) => Ok(Self::VDouble(d_left + i_right as f64)),
-                Self::VLong(l_right) => Ok(Self::VDouble(d_left + l_right as f64)),
+                Self::VDouble(d_right) => checked_double(d_left + d_right),
+                Self::VInteger(i_right) => checked_double(d_left + i_right as f64),
+                Self::VLong(l_right) => checked_double(d_left + l_right as f64),
                 _ => other.plus(self),
             },
             Self::VString(s_left) => match other {
@@ -250,16 +281,16 @@ impl Variant {
     pub fn minus(self, other: Self) -> Result<Self, VariantError> {
         match self {
             Self::VSingle(f_left) => match other {
-                Self::VSingle(f_right) => Ok(Self::VSingle(f_left - f_right)),
-                Self::VDouble(d_right) => Ok(Self::VDouble(f_left as f64 - d_right)),
-                Self::VInteger(i_right) => Ok(Self::VSingle(f_left - i_right as f32)),
-                Self::VLong(l_right) => Ok(Self::VSingle(f_left - l_right as f32)),
+                Self::VSingle(f_right) => checked_single(f_left - f_right),
+                Self::VDouble(d_right) => checked_double(f_left as f64 - d_right),
+                Self::VInteger(i_right) => checked_single(f_left - i_right as f32),
+                Self::VLong(l_right) => checked_single(f_left - l_right as f32),
                 _ => other.minus(self).and_then(|x| x.negate()),
             },
             Self::VDouble(d_left) => match other {
-                Self::VDouble(d_right) => Ok(Self::VDouble(d_left - d_right)),
-                Self::VInteger(i_right) => Ok(Self::VDouble(d_left - i_right as f64)),
-                Self::VLong(l_right) => Ok(Self::VDouble(d_left - l_right as f64)),
+                Self::VDouble(d_right) => checked_double(d_left - d_right),
+                Self::VInteger(i_right) => checked_double(d_left - i_right as f64),
+                Self::VLong(l_right) => checked_double(d_left - l_right as f64),
                 _ => other.minus(self).and_then(|x| x.negate()),
             },
             Self::VInteger(i_left) => match other {
@@ -279,16 +310,16 @@ impl Variant {
     pub fn multiply(self, other: Self) -> Result<Self, VariantError> {
         match self {
             Self::VSingle(f_left) => match other {
-                Self::VSingle(f_right) => Ok(Self::VSingle(f_left * f_right)),
-                Self::VDouble(d_right) => Ok(Self::VDouble(f_left as f64 * d_right)),
-                Self::VInteger(i_right) => Ok(Self::VSingle(f_left * i_right as f32)),
-                Self::VLong(l_right) => Ok(Self::VSingle(f_left * l_right as f32)),
+                Self::VSingle(f_right) => checked_single(f_left * f_right),
+                Self::VDouble(d_right) => checked_double(f_left as f64 * d_right),
+                Self::VInteger(i_right) => checked_single(f_left * i_right as f32),
+                Self::VLong(l_right) => checked_single(f_left * l_right as f32),
                 _ => Err(VariantError::TypeMismatch),
             },
             Self::VDouble(d_left) => match other {
-                Self::VDouble(d_right) => Ok(Self::VDouble(d_left * d_right)),
-                Self::VInteger(i_right) => Ok(Self::VDouble(d_left * i_right as f64)),
-                Self::VLong(l_right) => Ok(Self::VDouble(d_left * l_right as f64)),
+                Self::VDouble(d_right) => checked_double(d_left * d_right),
+                Self::VInteger(i_right) => checked_double(d_left * i_right as f64),
+                Self::VLong(l_right) => checked_double(d_left * l_right as f64),
                 _ => other.multiply(self),
             },
             Self::VInteger(i_left) => match other {
